@@ -284,7 +284,10 @@ class Interp:
         return m(e, env, mod)
     def ev_Constant(self, e, env, mod): return e.value
     def ev_Name(self, e, env, mod):
-        if e.id in env: return env[e.id]
+        if e.id in env:
+            v = env[e.id]
+            if type(v).__name__ == "HavocVal": raise Unsupported(f"local '{e.id}' is assigned in a loop body, read afterwards, and not described by the loop invariant")
+            return v
         g = mod.globals if mod else {}
         if e.id in g: return g[e.id]
         if e.id in PY_BUILTINS: return PY_BUILTINS[e.id]
